@@ -72,6 +72,7 @@ type thread struct {
 	vc       [MaxThreads]uint32
 	heldGlob int // number of package-level mutexes currently held
 	library  bool
+	spawnedAt int // index of the transition that spawned this thread (-1: initial thread)
 }
 
 // Point describes one decision of the scheduler at which more than one thread
@@ -103,8 +104,18 @@ type ThreadPanic struct {
 	Stack   string
 }
 
+// Trans is one executed transition (mode A: one synchronisation operation).
+type Trans struct {
+	Tid    int
+	Obj    any // synchronisation object (nil: none)
+	Node   int // index of the choice point at which it was chosen (-1: forced)
+	Parent int // for the first transition of a spawned thread: index of the spawning transition (-1 otherwise)
+}
+
 // Exec is the record of one complete execution.
 type Exec struct {
+	Trans         []Trans
+	Pending       []Trans // operations of unfinished threads when the execution ended
 	Choices       []int
 	Points        []Point
 	Deadlock      bool
@@ -153,6 +164,7 @@ type sched struct {
 	events   []string
 	machErr  string
 	sleep    map[int]bool
+	trans    []Trans
 	lastOp   pending // the operation granted to the thread that ran last
 	blocked  bool
 }
@@ -292,6 +304,15 @@ func (s *sched) pick() *thread {
 	s.lastOp = next.pend
 	if s.cfg.Sleep {
 		delete(s.sleep, next.id)
+		node := -1
+		if len(enabled) > 1 {
+			node = len(s.points) - 1
+		}
+		parent := -1
+		if next.pend.kind == opStart {
+			parent = next.spawnedAt
+		}
+		s.trans = append(s.trans, Trans{Tid: next.id, Obj: next.pend.obj, Node: node, Parent: parent})
 	}
 	return next
 }
@@ -390,7 +411,7 @@ func (s *sched) newThread(name string, f func(), library bool) *thread {
 	if len(s.threads) >= MaxThreads {
 		panic(MachineryError{"too many threads"})
 	}
-	t := &thread{id: len(s.threads), name: name, wake: make(chan struct{}, 1), library: library}
+	t := &thread{id: len(s.threads), name: name, wake: make(chan struct{}, 1), library: library, spawnedAt: len(s.trans) - 1}
 	t.pend = pending{kind: opStart}
 	s.threads = append(s.threads, t)
 	go s.threadRoot(t, f)
@@ -476,9 +497,12 @@ func RunOnce(cfg Config, prefix []int, threads []ThreadSpec) *Exec {
 	s.cur = first
 	first.wake <- struct{}{}
 	<-s.doneCh
-	ex := &Exec{Choices: s.choices, Points: s.points, Deadlock: s.deadlock && !s.blocked, SleepBlocked: s.blocked, Steps: s.steps, Threads: len(s.threads)}
+	ex := &Exec{Trans: s.trans, Choices: s.choices, Points: s.points, Deadlock: s.deadlock && !s.blocked, SleepBlocked: s.blocked, Steps: s.steps, Threads: len(s.threads)}
 	// collect stuck threads, then unwind them
 	for _, t := range s.threads {
+		if !t.done {
+			ex.Pending = append(ex.Pending, Trans{Tid: t.id, Obj: t.pend.obj, Node: -1, Parent: -1})
+		}
 		if !t.done && !s.blocked {
 			ex.Stuck = append(ex.Stuck, Stuck{Thread: t.id, Name: t.name, Op: t.pend.kind.String(), Object: describe(t.pend.obj), Site: t.pend.site, Library: t.library})
 		}
